@@ -220,11 +220,11 @@ pub fn run(engine: &Engine, tier: &str, seed: u64) -> i32 {
     extra.insert("hash_seeds_per_grammar".to_string(), json!(nseeds));
     extra.insert("distinct_hash_worlds_by_canary".to_string(), json!(canaries.len()));
     extra.insert("files_checked".to_string(), json!(probes.files_planned));
-    extra.insert("fault_kinds_fired".to_string(), json!({"hash_seed_changed": seed_runs as u64 + nbatch + norder, "address_shift": "in a third of the runs", "environment_noise": "0-3 extra variables per run"}));
+    extra.insert("fault_kinds_fired".to_string(), json!({"hash_seed_changed": seed_runs as u64 + nbatch + norder, "address_shift": "in a third of the runs", "environment_noise": "0-3 random and 0-13 well-known variables per run", "clock_moved": "two thirds of the runs", "pid_changed": "two thirds of the runs"}));
     extra.insert("runs_per_hour".to_string(), json!((scs.len() as f64 / wall * 3600.0) as u64));
     extra.insert("simulated_time".to_string(), json!("none"));
     extra.insert("real_components".to_string(), json!(["lalrpop library and CLI (working tree), all of its dependencies' hash maps"]));
-    extra.insert("stubbed_components".to_string(), json!(["getrandom -> SplitMix64(hash seed) via simfs.so", "ASLR disabled (personality), optional seeded heap shift"]));
+    extra.insert("stubbed_components".to_string(), json!(["getrandom -> SplitMix64(hash seed) via simfs.so", "clock_gettime(REALTIME)/gettimeofday/time and getpid via simfs.so", "ASLR disabled (personality), optional seeded heap shift"]));
     extra.insert("known_findings_reported".to_string(), json!(known));
     if canaries.len() < 4 {
         simcore::harness_error("C20: the hash seed seam does not change HashSet iteration order (canary orders < 4)");
@@ -236,7 +236,7 @@ pub fn run(engine: &Engine, tier: &str, seed: u64) -> i32 {
         level: "exploration".into(),
         evaluations: scs.len() as u64,
         distinct_nontrivial: shapes.len() as u64,
-        rule: "for every pool grammar (valid, invalid and type-inference-cycle texts): (a) alone under each hash seed 1..H (getrandom served by the shim, so every HashMap in the process is re-keyed), (b) in process_dir batches of 2-5 files with the grammar sorting first/middle/last, shuffled creation order, random hash seed, (c) process_file calls in a seeded order inside one process with the grammar regenerated at the end (API and CLI), under random names/directories, heap shift and environment noise; every output (and report) must equal the forced build of that text alone at hash seed 0, and each call must succeed iff that build does. distinct_nontrivial = distinct (run family:grammar, HashSet iteration order of the canary) pairs".into(),
+        rule: "for every pool grammar (valid, invalid and type-inference-cycle texts): (a) alone under each hash seed 1..H (getrandom served by the shim, so every HashMap in the process is re-keyed), (b) in process_dir batches of 2-5 files with the grammar sorting first/middle/last, shuffled creation order, random hash seed, (c) process_file calls in a seeded order inside one process with the grammar regenerated at the end (API and CLI), under random names/directories (shallow, deep, non-ASCII), heap shift, environment noise (random and well-known variables such as USER, HOME, TZ, SOURCE_DATE_EPOCH, CARGO_*), a simulated wall clock between 1970 and 2100 and a simulated pid (clock_gettime/gettimeofday/time/getpid served by the shim), with failing grammars processed earlier in the same process; every output (and report) must equal the forced build of that text alone at hash seed 0, and each call must succeed iff that build does. distinct_nontrivial = distinct (run family:grammar, HashSet iteration order of the canary) pairs".into(),
         samples: scs.iter().step_by((scs.len() / 3).max(1)).take(3).map(|s| json!({"label": s.label, "ops": s.ops.len(), "build": s.ops.last()})).collect(),
         exhaustive: false,
         assumptions: vec!["nondeterminism sources owned: hash keys, batch composition and order, names, creation order, address layout, environment; a source outside these would show up in the determinism self-test".into()],
